@@ -155,9 +155,27 @@ def run(ctx):
     # 2. malformed stream (loader vs model only)
     for i in range(ctx.scale(80, 800)):
         enc = rng.choice(['utf-8', 'latin-1', 'cp1251'])
-        text = cl.gen_terminal_text(rng, True)
+        wellformed = i % 3 == 0
+        text = cl.gen_terminal_text(rng, not wellformed)
         data = text.encode(enc, errors='replace')
-        if rng.random() < 0.2:
+        if wellformed:
+            # a hand-written but well-formed list (distinct values): guesser and scorer must read the same value -> probability map
+            lines_ = [l.split('\t') for l in text.split('\n') if l]
+            if len({l[0] for l in lines_}) == len(lines_) and all(len(l) == 2 for l in lines_) and '?' not in data.decode(enc, errors='replace').replace(text, ''):
+                pw = os.path.join(root, 'well.txt')
+                with open(pw, 'wb') as f:
+                    f.write(data)
+                sec = []
+                with contextlib.redirect_stderr(io.StringIO()), contextlib.redirect_stdout(io.StringIO()):
+                    gok = gg._load_from_file(sec, pw, enc)
+                gmap = {v: f2h(g['prob']) for g in sec for v in g['values']} if gok else None
+                smap = real_scorer_load(pw, enc)
+                smap = {k: f2h(v) for k, v in smap.items()} if smap is not None else None
+                if gmap is not None and smap is not None and gmap != smap:
+                    bad = next(k for k in smap if gmap.get(k) != smap[k])
+                    viol.append({'property': 'C07', 'kind': 'loaders-disagree', 'value': bad, 'guesser': gmap.get(bad), 'scorer': smap[bad],
+                                 'witness': {'text': text, 'encoding': enc}})
+        elif rng.random() < 0.2:
             data = data[:len(data) // 2] + b'\xff\xfe' + data[len(data) // 2:]
         p = os.path.join(root, 'mal.txt')
         with open(p, 'wb') as f:
@@ -172,7 +190,7 @@ def run(ctx):
     # 3. a trained ruleset: config lists = files on disk; OMEN loaders of guesser and scorer agree
     for rep in range(ctx.scale(2, 8)):
         enc = ['utf-8', 'cp1251', 'koi8-r', 'latin-1'][rep % 4] if rep % 4 != 3 else 'cp1251'
-        letters = 'abcdeXY12!' + ('яж' if True else '')
+        letters = 'abcdeXY12! \xa0' + 'яж'          # incl. white space: the n-gram is the last field of an OMEN line
         pws = []
         for _ in range(rng.randint(8, 30)):
             pws.append(''.join(rng.choice(letters) for _ in range(rng.randint(1, 8))))
